@@ -6,6 +6,7 @@ import (
 	"runtime/debug"
 	"strings"
 
+	"github.com/miekg/dns"
 	"verif/harness/fw"
 	"verif/harness/ref/zone"
 )
@@ -456,7 +457,7 @@ func c06GenerateSpace(c *fw.Ctx) {
 			tmpl{"h" + m + "k", "CNAME", m + "-t"}, // inside a label
 		)
 	}
-	c.Space("generate", fmt.Sprintf("$GENERATE: ranges %v × %d templates (every ${offset[,width[,base]]} with offset ∈ {-1,0,1,10}, width ∈ {0,1,3}, base ∈ {d,o,x,X}; offsets ±2^31, ±2^63 and their neighbours; $, $$, \\$, trailing $, several $ per template, malformed modifiers, other escapes next to a $, escaped backslashes next to a $; each placed at the end / start / inside of the owner, in a CNAME target and in an A address) and the large ranges %v with one template; explicit TTL 7; origins {\".\",\"example.\"}; followed by a record line with explicit owner and TTL; non-trivial: the range is valid and the template contains a $", ranges, len(tmpls), big), true,
+	c.Space("generate", fmt.Sprintf("$GENERATE: ranges %v × %d templates (every ${offset[,width[,base]]} with offset ∈ {-1,0,1,10}, width ∈ {0,1,3}, base ∈ {d,o,x,X}; offsets ±2^31, ±2^63 and their neighbours; $, $$, \\$, trailing $, several $ per template, malformed modifiers, other escapes next to a $, escaped backslashes next to a $; each placed at the end / start / inside of the owner, in a CNAME target and in an A address) and the large ranges %v with one template; steps of 2^31 … 2^63-1 (accepted with exactly the start value, or refused); explicit TTL 7; origins {\".\",\"example.\"}; followed by a record line with explicit owner and TTL; non-trivial: the range is valid and the template contains a $", ranges, len(tmpls), big), true,
 		func(emit func(func(*fw.R))) {
 			one := func(rng string, t tmpl) {
 				emit(func(r *fw.R) {
@@ -486,6 +487,28 @@ func c06GenerateSpace(c *fw.Ctx) {
 			for _, rng := range big {
 				one(rng, tmpl{"h${0,5,d}", "A", "10.1.${0,4,x}.1"})
 				one(rng, tmpl{"h$", "CNAME", "t"})
+			}
+			// steps beyond 2^31-1 (the limit BIND documents; the library takes any positive int64): whether such a
+			// directive is accepted is not fixed by the statement, but if it is, it expands to one record per step of
+			// its range — here the start value alone, start + step being beyond the stop value (and, for the largest
+			// steps, beyond 2^63: an iterator that wraps around would go on)
+			for _, g := range [][2]string{{"5-9/9223372036854775805", "5"}, {"1-2/9223372036854775807", "1"}, {"0-1/9223372036854775807", "0"}, {"2147483640-2147483647/9223372036854775800", "2147483640"}, {"3-4/2147483648", "3"}, {"0-2147483647/4294967296", "0"}} {
+				g := g
+				emit(func(r *fw.R) {
+					r.Nontrivial()
+					text := "first.example. 3 IN A 192.0.2.1\n$GENERATE " + g[0] + " h$ 7 IN A 192.0.2.9\nlast.example. 4 IN A 192.0.2.2\n"
+					zp := dns.NewZoneParser(strings.NewReader(text), "example.", "z")
+					var got []string
+					for rr, ok := zp.Next(); ok && len(got) < 20; rr, ok = zp.Next() {
+						got = append(got, rr.Header().Name)
+					}
+					want := []string{"first.example.", "h" + g[1] + ".example.", "last.example."}
+					okAccepted := zp.Err() == nil && fmt.Sprint(got) == fmt.Sprint(want)
+					okRefused := zp.Err() != nil && fmt.Sprint(got) == fmt.Sprint(want[:1])
+					if !okAccepted && !okRefused {
+						r.Fail("generate/big-step", "%q: owners %v, Err() = %v; want %v (one record per step of the range: the start value alone) or an error at the directive", text, got, zp.Err(), want)
+					}
+				})
 			}
 		})
 }
